@@ -14,6 +14,38 @@ CLAIMS = {
         "text": "Theorem `enc_eq_spec`: for every well-typed value the model encoder equals Spec.encode, an independent transcription of spec/src/wire-format.md (no fuel, no widths); `encVarint_eq_spec`, `varint_minimal`/`permitted_canonical` (canonical = minimal length), `zigzag_eq_spec`, `leBytes_eq_spec`, `seq_unknown_len`, `collect_str_eq`, `enc_name_irrelevant`. Each run compares the real encoder's bytes with Spec.encode computed by the Lean driver (byte-exact), incl. usize varints up to usize::MAX via announced lengths, unknown lengths and Display-collected strings.",
         "note": GENERIC_NOTE + " Spec/Wire.lean is trusted to transcribe the document (its table rows are checked as examples).",
     },
+    "C03": {
+        "text": "Theorem `dec_ok_iff`: for every type and byte string, dec t bs = ok (v, r) IFF a prefix of bs is an encoding the specification permits for (t, v) (`Permitted`, a mutual inductive relation transcribed from the wire-format document, incl. non-minimal varints within max length and range: `decVarint_ok_iff`); `rest_irrelevant`, `permitted_prefix_free` (unique decodability), `strict_prefix_unexpected_end` (every strict prefix of a valid message fails with unexpected-end), `dec_error_kinds` + the per-rule iff theorems for bad-bool / bad-option / bad-utf8 / bad-char / bad-varint. Tied to the code by all-short-inputs sweeps and structured corruptions through every decode entry point. The char defect found this way is repaired in /repo (fix: commit b4dd962) and the model mirrors the repaired decoder.",
+        "note": GENERIC_NOTE + " Error kinds the property does not name (serde custom, wont-implement) are projected to `other` before comparison.",
+    },
+    "C05": {
+        "text": "Theorems `to_slice_threshold` / `to_hvec_threshold`: serialising into a slice / fixed-capacity vector succeeds IFF capacity >= (enc v).length and then returns exactly enc v; `prefix_and_tail` (output at the front, rest of the buffer untouched; on failure only a prefix of the encoding was written, memory length unchanged), `slice_feed_overflow` (cursor never leaves the buffer on any call sequence), `size_exact`, `alloc_never_fails`; COBS/CRC framings: `cobs_flavor_eq_spec_slice/_hvec`, `cobs_flavor_no_panic_slice/_hvec`, `crc_frame_logged`. Tied to the code by every capacity 0..L+2 for plain/COBS/10 CRC framings over slice (between canaries) and heapless storage.",
+        "note": GENERIC_NOTE + " PARTIAL: real out-of-bounds writes are runtime behaviour; the theorems are about the cursor/index arithmetic of the model and the harness observes canary zones.",
+    },
+    "C06": {
+        "text": "Theorems `cobs_flavor_eq_spec(_lawful/_slice/_hvec/_bytes)`: the back-patching Cobs<B> flavour over any lawful indexable storage outputs exactly Spec.cobsEncode m ++ [0] (reference COBS, independent transcription) for EVERY message; `enc_u8_no_overflow` (the u8 counters never wrap), `frame_no_interior_zero`, `frame_one_zero`, `frame_length` (= n + 1 + #full 254-blocks <= n + n/254 + 1, equality for zero-free messages), `decode_encode` (in-place crate decoder inverts it), `take_frames`, `take_frames_iter` (frame-at-a-time decoding of k frames returns each value and the exact remainder, with or without the last sentinel).",
+        "note": GENERIC_NOTE + " The cobs 0.2.3 crate is modelled in full and compared exhaustively on short messages each run.",
+    },
+    "C07": {
+        "text": "Theorems `cobs_de_total` (the in-place decoder never indexes out of range: dst_used <= src_used <= len; from_bytes_cobs / take_from_bytes_cobs never panic), `cobs_de_eq_spec` (bad-encoding IFF a code byte points past the end of the frame (`malformed_iff`), otherwise exactly plain decoding of the reference COBS-decoded payload of the first frame), `remainder_after_sentinel` (remainder = everything after the first zero), `writes_confined` (bytes at/after the frame end untouched, length unchanged) — for EVERY byte string.",
+        "note": GENERIC_NOTE + " PARTIAL: real memory safety is observed through canary zones, the theorems are index-level.",
+    },
+    "C08": {
+        "text": "Theorem `acc_delivers`: for EVERY capacity, decoder, byte stream and EVERY way of cutting it into chunks (stated over an arbitrary chunk list; also from an arbitrary pre-filled buffer), if every zero-terminated segment (with sentinel) and the tail fit, the documented feed loop reports exactly one outcome per zero byte, in order, equal to decoding the segment in isolation, never OverFull, never a panic, and the buffer ends as the unterminated tail; `acc_delivers_chunking_irrelevant`; `feed_conserves` (consumed ++ remainder = chunk, per call). Tied to the code by all 2^(len-1) chunkings of short streams with every FeedResult and the buffer (hook) compared after every call.",
+        "note": GENERIC_NOTE + " Frame decoding is an abstract parameter of the theorems (covers every target type).",
+    },
+    "C09": {
+        "text": "Theorems `feed_total`/`run_total` (no panic, no out-of-range index for ANY stream and chunking), `idx_le_n` (invariant), `reset_after_zero` (initial state after every zero byte, from any state), `overflow_reported(_from)` (an over-long segment yields OverFull as the first outcome, no later than the call consuming its sentinel), `resync` (a fitting frame after any garbage and a zero is delivered intact under every chunking), `drain_terminates` (the documented loop needs <= 2*len+1 calls for every capacity >= 1) and `drain_diverges_zero` (why capacity 0 is excluded).",
+        "note": GENERIC_NOTE,
+    },
+    "C10": {
+        "text": "Theorems `crc_frame(_serialize/_logged)` (output = plain encoding ++ little-endian checksum of exactly those bytes, any lawful storage), `crc_roundtrip`, `crc_sound` (whenever CRC-checked decoding succeeds the consumed bytes are followed by their correct checksum) with corollaries `checksum_corruption_rejected`, and — for the Rocksoft bitwise CRC at ANY width with odd polynomial — `burst_detected` / `bitflip_detected` / `window_detected` lifted to frames as `payload_burst_rejected` / `payload_bitflip_rejected` (every burst <= width in the algorithm's bit order that leaves the decoded length unchanged is rejected). The crate's table-driven CRC is tied to the bitwise model by catalogue check values (kernel-evaluated) and per-run comparison.",
+        "note": GENERIC_NOTE + " The crc crate is modelled (Rocksoft), not verified.",
+    },
+    "C16": {
+        "text": "Theorems `hashers_agree` (const/borrowed hasher = owned hasher on every schema and path; the two hand-duplicated copies are modelled separately with their own tag literals), `hash_eq_spec(_owned)` (= 64-bit FNV-1a over path ++ documented tag-and-name stream, LE digest), `type_name_irrelevant(_in_context)`, `fnv_step_injective`, `single_byte_sensitive(_digest)` with corollaries `path_byte_sensitive`, `leaf_kind_sensitive`, `field_name_byte_sensitive`, `variant_name_byte_sensitive`; `tags_pairwise_distinct`. PARTIAL (`key_sensitive_partial`): the blanket 'keys change when a name / order / kind changes' is FALSE of the code — three stream collisions are proved (`key_collision_name_framing`, `stream_collision_field_order`, `stream_collision_tuple_framing`), reproduced on the real crate each run and listed in known_findings.json.",
+        "note": GENERIC_NOTE + " Sensitivity beyond single-byte stream changes is sampled (single-node mutations), not proved.",
+    },
 }
 
 NOT_APPLICABLE = []
